@@ -630,17 +630,22 @@ impl Compiler {
             Expr::While { condition, body } => {
                 // TODO: Can we get rid of this now that empty block statement emit a NULL?
                 self.emit_opcode(OpCode::Null);
-                self.loop_contexts.push(LoopContext::new(
-                    self.instructions.len(),
-                    self.pending_values,
-                ));
                 let pos_before_condition = self.instructions.len();
+
+                // The condition is not part of the body of this loop: a stop / volgende in there belongs to the
+                // enclosing loop (if any). The value of the previous iteration is on the stack while it is evaluated.
+                self.pending_values += 1;
                 self.compile_expression(condition)?;
+                self.pending_values -= 1;
 
                 let pos_jump_if_false = self.instructions.len();
                 self.emit_opcode(OpCode::JumpIfFalse);
                 self.emit_u16(JUMP_PLACEHOLDER);
                 self.emit_opcode(OpCode::Pop);
+                self.loop_contexts.push(LoopContext::new(
+                    pos_before_condition,
+                    self.pending_values,
+                ));
                 self.compile_block_expression(body)?;
 
                 // emit jump instruction to loop condition
